@@ -608,10 +608,11 @@ def c06(ctx):
 HR_BASE = ('Revs = {4, 3} B64s = {FALSE, TRUE} Jsonps = {FALSE, TRUE} AEs = %s\n Thresholds = {"default", "zero", "off"} Flags = {"default", "true", "false"} '
            'Sizes = {10, 3000} Kinds = {"text", "binary"} Js = %s\n'
            ' Cookies = {"none", "default", "custom"} HsTransports = {"polling", "websocket"} Policies = {"none", "star", "string", "list", "regexp", "true", "false"}\n'
-           ' Creds = {TRUE, FALSE} ReqOrigins = {"a", "evil", "absent"} Preflights = {TRUE, FALSE} Continues = {TRUE, FALSE} Statuses = {204, 200}\n')
-HR_AES_Q = '{"absent", "gzip", "deflate", "several", "identity", "gzipq0"}'
-HR_AES_T = '{"absent", "gzip", "deflate", "br", "zstd", "several", "identity", "gzipq0", "mixedq"}'
-HR_JS = '{"seven", "12ab", "script", "empty", "inject"}'
+           ' Creds = {TRUE, FALSE} ReqOrigins = {"a", "evil", "absent"} Preflights = {TRUE, FALSE} Continues = {TRUE, FALSE} Statuses = {204, 200}\n'
+           ' OuterVarys = {"none", "ae", "xorig", "lower"}\n')
+HR_AES_Q = '{"absent", "gzip", "deflate", "several", "identity", "gzipq0", "gzipq00", "q000deflate", "gzipq0dot", "gzipq0001", "ows", "upper", "starq0", "qempty"}'
+HR_AES_T = '{"absent", "gzip", "deflate", "br", "zstd", "several", "identity", "gzipq0", "mixedq", "gzipq00", "q000deflate", "gzipq0dot", "gzipq0001", "ows", "upper", "starq0", "qempty"}'
+HR_JS = '{"seven", "12ab", "script", "empty", "inject", "neg1", "plus7", "zeros", "float", "hex", "huge"}'
 
 
 def hr_cfg(mode, quick, emit, inv="TableOK"):
